@@ -18,6 +18,8 @@ import (
 type Case struct {
 	ID    string
 	Props []string // properties whose correspondence this case carries
+	// SpecProps: properties whose abstract spec the driver's "## spec" column is (default: Props)
+	SpecProps []string
 	Ops   []string
 	Impl  []string
 	// Exec re-executes ops on the real code (fresh state) and returns one
@@ -241,7 +243,11 @@ func RunCases(suite string, cases []*Case, rep *Report) {
 					return firstSpecDiff(im, mo[1:]) >= 0
 				})
 			}
-			for _, p := range c.Props {
+			sp := c.SpecProps
+			if sp == nil {
+				sp = c.Props
+			}
+			for _, p := range sp {
 				if len(rep.Violations) < 4*maxReported {
 					rep.Violations = append(rep.Violations, Violation{Property: p, Case: c.ID, Ops: ops,
 						What:   "real code's answer differs from the abstract specification",
